@@ -7,6 +7,6 @@ CONSTANTS
   MaxSwaps = 2
   MaxSteps = 9
   MinLen = 4
-  GenFlavours = {"sabre"}
+  GenFlavours = {"sabre", "pam"}
 INVARIANTS PublishedAreTokens PiTracksTokens MappingsInjective MappingsInRange PlacementConnected TokensConserved AppliedMeans
 CHECK_DEADLOCK FALSE
